@@ -1285,6 +1285,20 @@ class _Helper:
                 any(isinstance(s_, ast.Expr) and s_.value is y for s_ in _walk_scope(node))
                 for y in ys)
         self.gen_returns = bool(rs)
+        # bare returns that sit directly in the generator's last top-level loop only stop that
+        # loop: they are breaks once the body is put in place
+        self.gen_ret_as_break = False
+        if self.gen and rs:
+            body_g = _strip_doc(node.body)  # type: ignore[attr-defined]
+            if body_g and isinstance(body_g[-1], (ast.For, ast.While)) and not body_g[-1].orelse:
+                lp = body_g[-1]
+                in_loop = [x for x in _walk_scope(lp) if isinstance(x, ast.Return)]
+                nested = [x for inner in _walk_scope(lp) if inner is not lp and isinstance(
+                    inner, (ast.For, ast.While)) for x in _walk_scope(inner)
+                    if isinstance(x, ast.Return)]
+                if len(in_loop) == len(rs) and not nested and not _loop_level_jumps_kind(
+                        lp.body, ast.Break):
+                    self.gen_ret_as_break = True
         # a sub-generator that hands back a value (`v = yield from helper(..)`): folded back like
         # a statement-bodied helper, its yields staying yields of the caller
         self.genret: Optional["_Helper"] = None
@@ -1689,6 +1703,23 @@ def _inline_generators(fn: ast.AST, helpers, cls, counter: List[int],
             return node
         visit_Lambda = visit_FunctionDef
 
+    # `for p in takewhile(pred, it): B`  ==  `for p in it: if not pred(p): break; B`
+    for block in list(_blocks(fn)):
+        for st in block:
+            if isinstance(st, ast.For) and isinstance(st.iter, ast.Call) and call_name_(
+                    st.iter) == "takewhile" and len(st.iter.args) == 2 and not st.orelse and \
+                    isinstance(st.target, ast.Name):
+                pred, it = st.iter.args
+                test = _Beta().visit(ast.Call(func=pred, args=[ast.Name(id=st.target.id,
+                                                                         ctx=ast.Load())],
+                                              keywords=[]))
+                guard = ast.copy_location(ast.If(
+                    test=ast.UnaryOp(op=ast.Not(), operand=test), body=[ast.Break()],
+                    orelse=[]), st)
+                st.iter = it
+                st.body = [guard] + st.body
+                ast.fix_missing_locations(st)
+                n += 1
     for block in list(_blocks(fn)):
         i = 0
         while i < len(block):
@@ -1731,7 +1762,8 @@ def _inline_generators(fn: ast.AST, helpers, cls, counter: List[int],
             if h is None or not getattr(h, "gen", False):
                 i += 1
                 continue
-            if h.gen_returns and not (kind == "yieldfrom" and _is_tail(fn, st)):
+            if h.gen_returns and not (kind == "yieldfrom" and _is_tail(fn, st)) and not \
+                    h.gen_ret_as_break:
                 i += 1
                 continue
             env = h.bind(gcall, recv)
@@ -1799,6 +1831,15 @@ def _inline_generators(fn: ast.AST, helpers, cls, counter: List[int],
                 head = [ast.Assign(targets=[ast.Name(id=tgt.id, ctx=ast.Store())], value=init)]
             pre, body = _instantiate(h, env, caller_names, counter,
                                      extra.get("force"))  # type: ignore[arg-type]
+            if h.gen_returns and h.gen_ret_as_break and not (kind == "yieldfrom"):
+                class _RB(ast.NodeTransformer):
+                    def visit_Return(self, node: ast.Return):
+                        return ast.copy_location(ast.Break(), node)
+
+                    def visit_FunctionDef(self, node):
+                        return node
+                    visit_Lambda = visit_FunctionDef
+                body = [_RB().visit(s_) for s_ in body]
             tr_ = _Y(make)
             tr_.keep_from = kind == "yieldfrom"
             if kind == "for" and isinstance(st.target, ast.Name):
@@ -2245,6 +2286,14 @@ def inline_helpers(tree: ast.Module, modname: str, ref_functions: Set[str]) -> i
             for _r in range(8):
                 if not fold_flag_tests(fn) + (scalarise_records(fn, recs) if recs else 0):
                     break
+            # statements behind a return / raise / break / continue, and `pass` among others
+            for b_ in list(_blocks(fn)):
+                for j_, s_ in enumerate(b_):
+                    if isinstance(s_, (ast.Return, ast.Raise, ast.Break, ast.Continue)):
+                        del b_[j_ + 1:]
+                        break
+                if len(b_) > 1:
+                    b_[:] = [s_ for s_ in b_ if not isinstance(s_, ast.Pass)] or [ast.Pass()]
         # drop nested helper definitions that are no longer referenced
         used = {x.id for x in _walk_scope(fn) if isinstance(x, ast.Name) and
                 isinstance(x.ctx, ast.Load)}
